@@ -38,7 +38,7 @@ const BaseDoc = `{
   "responses":{"R":{"description":"err","content":{"application/json":{"schema":{"type":"object","properties":{"m":{"type":"string"}}}}}}},
   "examples":{"E":{"value":{"id":1}},"EQ":{"value":[1,2]}},
   "links":{"L":{"operationId":"getA"}},
-  "callbacks":{"CB":{"{$url}":{"post":{"responses":{"200":{"description":"d"}}}}}},
+  "callbacks":{"CB":{"{$url}":{"parameters":[{"name":"cbq","in":"query","schema":{"type":"string"}}],"post":{"parameters":[{"name":"cbh","in":"header","schema":{"type":"integer"}}],"responses":{"200":{"description":"d"}}}}}},
   "securitySchemes":{"key":{"type":"apiKey","name":"X-Key","in":"header"},"oauth":{"type":"oauth2","flows":{"password":{"tokenUrl":"https://e.example/t","scopes":{"r":"read"}}}}}
  }
 }`
